@@ -613,6 +613,27 @@ func monC07(c *child.Ctx, replay json.RawMessage) {
 		execC07Stream(c, k, cj)
 		c.Eval(ref.Hash64(b), i%10 > 2)
 	}
+	// sessions of well-formed MSM messages of the four constellations with a time scale,
+	// running across week and day rollovers, with illegal timestamps and frames cut
+	// short in between (the histories of C06): framed, decoded and displayed
+	nHist := c.Share(c.Pick(1600, 32000))
+	for i := 0; i < nHist; i++ {
+		h, _ := genHistory(r, i%2 == 0)
+		rr := ref.NewRand(uint64(h.StartMs) ^ 0x5555)
+		var b []byte
+		for _, m := range h.Msgs {
+			f := timeFrame(rr, m.Type, m.TS)
+			if m.Short > 0 {
+				f = ref.Frame(f[3 : 3+m.Short])
+			}
+			b = append(b, f...)
+		}
+		k := crashCase{Stream: hexs(b), Note: "a session across rollovers"}
+		cj := c.BeginV(k)
+		execC07Stream(c, k, cj)
+		c.Count("sessions_across_rollovers", 1)
+		c.Eval(ref.Hash64(b), true)
+	}
 	if c.Thorough() && c.Batch == 0 {
 		b := r.Bytes(1 << 20)
 		k := crashCase{Stream: hexs(b), Note: "1 MB random"}
